@@ -11,6 +11,7 @@ import (
 	"math"
 	"os"
 	"reflect"
+	"regexp"
 	"sort"
 	"strconv"
 	"strings"
@@ -423,6 +424,11 @@ func (c *checker) compareStyle(i int, e mstyle, o canvas.Style, data []float64) 
 // of subtracted from its length: the path is longer than what is left of the element it starts
 // in (rem) but not longer than the element plus the part already consumed (d[i]+into).
 func offsetSignTrigger(offset float64, d []float64, lens []float64) bool {
+	if len(d) >= 3 && d[0] == 0 { // a leading zero-length dash: gap d[1] joins the last gap
+		nd := append([]float64(nil), d[2:]...)
+		nd[len(nd)-1] += d[1]
+		offset, d = offset-d[1], nd
+	}
 	total, length := 0.0, 0.0
 	for _, v := range d {
 		total += v
@@ -1048,6 +1054,13 @@ func families(tier string) []fw.Family {
 	return fs
 }
 
+var (
+	reZeroDash   = regexp.MustCompile(`SetDashes\(0, (0\.5,0,0\.5,1|0,1,2,3)\)`)
+	reDrawAfter  = regexp.MustCompile(`SetDashes\(0, (0\.5,0,0\.5,1|0,1,2,3)\).*(DrawPath|Fill\(\)|Stroke\(\)|FillStroke\(\))`)
+	reOffsetDash = regexp.MustCompile(`SetDashes\((0\.5, 6,2|-1, 6|-0\.25, 0\.75|6\.5, 6,9|0, 0,1,2,3)\)`)
+	reOddDash    = regexp.MustCompile(`SetDashes\((-1, 6|-0\.25, 0\.75)\)`)
+)
+
 // Prop is the C15 check.
 func Prop() *fw.Property {
 	return &fw.Property{
@@ -1065,21 +1078,21 @@ func Prop() *fw.Property {
 		},
 		Families: families,
 		KnownPredicates: map[string]func(v *fw.Violation) bool{
-			// the in-place edit of dashCanonical: needs the pattern with a 0 and a path draw
+			// dashCanonical edits the slice in place: needs a pattern with a 0 and a path draw after it
 			"dash-slice-mutated": func(v *fw.Violation) bool {
-				return v.Class == "dashes-mutated-in-place" && strings.Contains(v.Case, "SetDashes(0, 0.5,0,0.5,1)")
+				return v.Class == "dashes-mutated-in-place" && reZeroDash.MatchString(v.Case) && reDrawAfter.MatchString(v.Case)
+			},
+			// checkDash compares the path length with d[i]-pos instead of d[i]+pos: needs a non-zero dash offset
+			"dash-offset-sign": func(v *fw.Violation) bool {
+				return v.Class == "dash-simplification-offset-sign" && reOffsetDash.MatchString(v.Case)
+			},
+			// checkDash locates the first element in an odd-length pattern without doubling it as Dash does
+			"dash-odd-pattern": func(v *fw.Violation) bool {
+				return v.Class == "dash-simplification-odd-pattern" && reOddDash.MatchString(v.Case)
 			},
 			// DrawPath records the canonical dash pattern but keeps the un-shifted dash offset
 			"dash-offset-dropped": func(v *fw.Violation) bool {
 				return v.Class == "dash-canonical-offset-dropped" && strings.Contains(v.Case, "SetDashes(0, 0,1,2,3)")
-			},
-			// checkDash looks for the first element in the odd-length pattern without doubling it as Dash does
-			"dash-odd-pattern": func(v *fw.Violation) bool {
-				return v.Class == "dash-simplification-odd-pattern" && strings.Contains(v.Case, "SetDashes(-1, 6)") && strings.Contains(v.Case, "M0 0L0.5 0")
-			},
-			// checkDash compares the path length with d[i]-pos instead of d[i]+pos: needs a non-zero dash offset
-			"dash-offset-sign": func(v *fw.Violation) bool {
-				return v.Class == "dash-simplification-offset-sign" && (strings.Contains(v.Case, "SetDashes(0.5, 6,2)") || strings.Contains(v.Case, "SetDashes(-1, 6)"))
 			},
 		},
 	}
